@@ -146,7 +146,8 @@ func (n *Nodis) applyPatch(p patch.Op) error {
 	case *patch.OpDel:
 		n.Del(op.Key)
 	case *patch.OpExpire:
-		n.Expire(op.Key, op.Expiration)
+		// the record carries the absolute deadline in milliseconds
+		n.ExpireAt(op.Key, time.UnixMilli(op.Expiration))
 	case *patch.OpExpireAt:
 		n.ExpireAt(op.Key, time.Unix(op.Expiration, 0))
 	case *patch.OpHClear:
@@ -191,6 +192,10 @@ func (n *Nodis) applyPatch(p patch.Op) error {
 		n.SRem(op.Key, op.Members...)
 	case *patch.OpSet:
 		n.Set(op.Key, op.Value, op.KeepTTL)
+		if op.Expiration != 0 {
+			// SETEX / SET EX: the absolute deadline in milliseconds travels with the value
+			n.ExpireAt(op.Key, time.UnixMilli(op.Expiration))
+		}
 	case *patch.OpZAdd:
 		n.ZAdd(op.Key, op.Member, op.Score)
 	case *patch.OpZClear:
@@ -205,6 +210,20 @@ func (n *Nodis) applyPatch(p patch.Op) error {
 		n.ZRemRangeByScore(op.Key, op.Min, op.Max, int(op.Mode))
 	case *patch.OpRename:
 		return n.Rename(op.Key, op.DstKey)
+	case *patch.OpRenameNX:
+		return n.RenameNX(op.Key, op.DstKey)
+	case *patch.OpPersist:
+		n.Persist(op.Key)
+	case *patch.OpHMSet:
+		for i, field := range op.Fields {
+			if i < len(op.Values) {
+				n.HSet(op.Key, field, op.Values[i])
+			}
+		}
+	case *patch.OpZUnionStore:
+		n.ZUnionStore(op.Key, op.Keys, op.Weights, op.Aggregate)
+	case *patch.OpZInterStore:
+		n.ZInterStore(op.Key, op.Keys, op.Weights, op.Aggregate)
 	default:
 		return ErrUnknownOperation
 	}
